@@ -35,14 +35,14 @@ SingleCases(cls) ==
 OutOf(cls, cfg) == [expect |-> Expect(cls, cfg), cfg |-> Pairs(cfg), defaults |-> DefaultsOf(cls, cfg)]
 
 (* ---------------------------------------------------------------------- mathx *)
-MathXClasses == IF Big THEN {"FormulaGrader", "MatrixGrader", "SumGrader", "IntegralGrader"} ELSE {"FormulaGrader"}
+MathXClasses == IF Big THEN {"FormulaGrader", "MatrixGrader", "SumGrader", "IntegralGrader"} ELSE {"FormulaGrader", "MatrixGrader"}
 A == "ABSENT"
-MathXDom == [variables |-> {A, "list_xy", "list_const", "list_ab"},
+MathXDom == [variables |-> {A, "list_xy", "list_const", "list_ab", "list_infty"},
              numbered_vars |-> {A, "list_ab", "list_const"},
              user_constants |-> {A, "dict_const_c", "dict_const_x", "dict_const_pi", "dict_const_del"},
-             user_functions |-> {A, "dict_fn_f", "dict_fn_sin"},
-             whitelist |-> {A, "list_empty", "list_fn", "list_none1"},
-             blacklist |-> {A, "list_empty", "list_fn"},
+             user_functions |-> {A, "dict_fn_f", "dict_fn_sin", "dict_fn_det"},
+             whitelist |-> {A, "list_fn", "list_none1"} \cup (IF Big THEN {"list_empty"} ELSE {}),
+             blacklist |-> {A, "list_fn"} \cup (IF Big THEN {"list_empty"} ELSE {}),
              suppress_warnings |-> {A, "bool_true", "bool_false"},
              sample_from |-> IF Big THEN {A, "dict_sample_x", "dict_empty"} ELSE {A, "dict_sample_x"}]
 MathXSpace(v, u) == [variables : {v}, numbered_vars : MathXDom.numbered_vars, user_constants : {u},
@@ -53,7 +53,23 @@ MathXOpts == {"variables", "numbered_vars", "user_constants", "user_functions", 
 MathXCfg(x) == LET S == {o \in MathXOpts : x.m[o] # A} IN [o \in S |-> x.m[o]] @@ Base[x.cls]
 
 (* ---------------------------------------------------------------------- answers *)
-AnswerClasses == IF Big THEN {"StringGrader", "FormulaGrader", "NumericalGrader", "MatrixGrader"} ELSE {"StringGrader", "FormulaGrader"}
+AnswerClasses == IF Big THEN {"StringGrader", "FormulaGrader", "NumericalGrader", "MatrixGrader"}
+                 ELSE {"StringGrader", "FormulaGrader", "MatrixGrader"}
+\* other options the answers are combined with: every option that decides how answers are normalised, plus harmless ones
+NoCtx == [k \in {} |-> "none"]
+Contexts ==
+     "none" :> NoCtx
+  @@ "wrongmsg" :> ("wrong_msg" :> "str" @@ "debug" :> "bool_true")
+  @@ "tol" :> ("tolerance" :> "pct_ok" @@ "user_functions" :> "dict_fn_f")
+  @@ "epc_prop" :> ("entry_partial_credit" :> "enum_proportional")
+  @@ "epc_num" :> ("entry_partial_credit" :> "float_frac")
+  @@ "epc_zero" :> ("entry_partial_credit" :> "int_zero")
+  @@ "epm" :> ("entry_partial_msg" :> "str")
+  @@ "epm_empty" :> ("entry_partial_msg" :> "str_empty")
+  @@ "epc_epm" :> ("entry_partial_credit" :> "float_one" @@ "entry_partial_msg" :> "str_char")
+ContextsOf(cls) ==
+  {"none", "wrongmsg"} \cup (IF cls = "StringGrader" THEN {} ELSE {"tol"})
+  \cup (IF cls = "MatrixGrader" THEN {"epc_prop", "epc_num", "epc_zero", "epm", "epm_empty", "epc_epm"} ELSE {})
 Atom(a) == [form |-> "atom", expect |-> <<a>>, etup |-> FALSE, grade |-> "absent", msg |-> "absent", ok |-> "absent", extra |-> FALSE]
 Dict(e, t, g, m, k, x) == [form |-> "dict", expect |-> e, etup |-> t, grade |-> g, msg |-> m, ok |-> k, extra |-> x]
 AtomItems == {Atom(a) : a \in {"e1", "e2", "b_int", "b_none", "b_list"}}
@@ -79,7 +95,9 @@ AnswerValues ==
 \cup {[tup |-> TRUE, items |-> <<i>>] : i \in FewItems}
 \cup {[tup |-> TRUE, items |-> <<i, j>>] : i \in FewItems, j \in FewItems}
 \cup (IF Big THEN {[tup |-> TRUE, items |-> <<i, j, k>>] : i \in FewItems, j \in FewItems, k \in FewItems} ELSE {})
-AnswersOut(a) == [expect |-> AnswersExpect(a), canon |-> IF AnswersExpect(a) = "accept" THEN CanonAnswers(a) ELSE <<>>]
+AnswersOut(cls, ctx, a) == LET e == AnswersInContext(cls, Contexts[ctx], a) IN
+  [expect |-> e, canon |-> IF e = "accept" THEN CanonAnswers(a) ELSE <<>>, ctx |-> Pairs(Contexts[ctx]),
+   cmp |-> ComparerOf(cls, Contexts[ctx])]
 
 (* ---------------------------------------------------------------------- listans *)
 Bare(i) == [tup |-> FALSE, items |-> <<i>>]
@@ -87,7 +105,16 @@ Entries == {Bare(Atom("e1")), Bare(Atom("e2")), Bare(Dict(<<"e3">>, FALSE, "ghal
             [tup |-> TRUE, items |-> <<Atom("e1"), Atom("e2")>>], Bare(Atom("b_int"))}
 AtomEntries == {Bare(Atom("e1")), Bare(Atom("e2"))}
 EntryLists(lo, hi) == UNION {[1..n -> Entries] : n \in lo..hi}
-Alt(f, es, g, m) == [form |-> f, entries |-> es, grade |-> g, msg |-> m]
+Alt(f, es, g, m) == [form |-> f, entries |-> es, more |-> <<>>, estr |-> FALSE, grade |-> g, msg |-> m]
+\* dictionaries whose expect is a tuple of lists (of the same or of different lengths), written as lists or as delimited strings
+L2 == <<Bare(Atom("e1")), Bare(Atom("e2"))>>
+L3 == <<Bare(Atom("e2")), Bare(Atom("e1")), Bare(Atom("e3"))>>
+L2d == <<Bare(Atom("e3")), Bare(Dict(<<"e1">>, FALSE, "ghalf", "absent", "absent", FALSE))>>
+TupleAlts ==
+     {[form |-> "dict", entries |-> es, more |-> mo, estr |-> st, grade |-> g, msg |-> "absent"] :
+         es \in {L2, L3}, mo \in {<<L2>>, <<L3>>, <<L2, L3>>, <<L2, L2>>, <<L3, L3, L2>>}, st \in BOOLEAN, g \in {"absent", "ghalf"}}
+\cup {[form |-> "dict", entries |-> es, more |-> mo, estr |-> FALSE, grade |-> "absent", msg |-> "m_text"] :
+         es \in {L2, L2d}, mo \in {<<L2d>>, <<L2d, L3>>, <<L2, <<Bare(Atom("b_int")), Bare(Atom("e1"))>>>>}}
 AltsOf(cls) ==
   IF cls = "ListGrader"
   THEN {Alt("list", es, "absent", "absent") : es \in EntryLists(1, IF Big THEN 3 ELSE 2)}
@@ -95,12 +122,20 @@ AltsOf(cls) ==
   ELSE {Alt("list", es, "absent", "absent") : es \in EntryLists(1, IF Big THEN 3 ELSE 2)}
        \cup {Alt("dict", es, g, m) : es \in EntryLists(1, 2), g \in {"absent", "ghalf", "g0", "g2"}, m \in {"absent", "m_text", "m_int"}}
        \cup {Alt("string", es, "absent", "absent") : es \in UNION {[1..n -> AtomEntries] : n \in 1..3}}
-FewAlts(cls) == {a \in AltsOf(cls) : Len(a.entries) = 2 /\ a.entries[1] = Bare(Atom("e1")) /\ a.msg # "m_int"}
+       \cup TupleAlts
+FewAlts(cls) == {a \in AltsOf(cls) : a.more = <<>> /\ Len(a.entries) = 2 /\ a.entries[1] = Bare(Atom("e1")) /\ a.msg # "m_int"}
                 \cup {Alt("list", <<Bare(Atom("e2"))>>, "absent", "absent")}
-ListAnswerValues(cls) ==
+                \cup (IF cls = "ListGrader" THEN {} ELSE {a \in TupleAlts : a.entries = L2 /\ Len(a.more) = 1 /\ a.grade = "absent"})
+\* length_error and the delimiter matter for SingleListGrader only
+ListAnswerShapes(cls) ==
      {[bare |-> TRUE, alts |-> <<a>>] : a \in AltsOf(cls)}
 \cup {[bare |-> FALSE, alts |-> <<a>>] : a \in FewAlts(cls)}
 \cup {[bare |-> FALSE, alts |-> <<a, b>>] : a \in FewAlts(cls), b \in FewAlts(cls)}
+HasString(x) == \E i \in 1..Len(x.alts) : x.alts[i].form = "string" \/ x.alts[i].estr
+ListAnswerValues(cls) ==
+  IF cls = "ListGrader" THEN {[bare |-> x.bare, alts |-> x.alts, lenerr |-> FALSE, delim |-> "comma"] : x \in ListAnswerShapes(cls)}
+  ELSE {[bare |-> x.bare, alts |-> x.alts, lenerr |-> le, delim |-> d] : x \in ListAnswerShapes(cls), le \in BOOLEAN, d \in {"comma", "semi"}}
+       \ {y \in [bare : BOOLEAN, alts : {x.alts : x \in ListAnswerShapes(cls)}, lenerr : BOOLEAN, delim : {"semi"}] : ~HasString(y)}
 ListAnswersOut(cls, la) == LET e == ListAnswersExpect(cls, la) IN
                            [expect |-> e, canon |-> IF e = "accept" THEN CanonListAnswers(cls, la) ELSE <<>>]
 
@@ -134,7 +169,7 @@ Seeds ==
   CASE Part = "single" -> {[kind |-> "seed", cls |-> cls] : cls \in Classes}
     [] Part = "mathx" -> {[kind |-> "seed", cls |-> cls, v |-> v, u |-> u] : cls \in MathXClasses, v \in MathXDom.variables,
                                                                               u \in MathXDom.user_constants}
-    [] Part = "answers" -> {[kind |-> "seed", cls |-> cls] : cls \in AnswerClasses}
+    [] Part = "answers" -> {[kind |-> "seed", cls |-> cls, ctx |-> x] : cls \in AnswerClasses, x \in DOMAIN Contexts}
     [] Part = "listans" -> {[kind |-> "seed", cls |-> cls] : cls \in {"ListGrader", "SingleListGrader"}}
     [] Part = "lgroup" -> {[kind |-> "seed", ordered |-> o, subs |-> s] : o \in BOOLEAN, s \in SubsOne \cup SubsMany}
     [] Part = "nested" -> {[kind |-> "seed", n |-> n] : n \in 1..(IF Big THEN 4 ELSE 3)}
@@ -148,8 +183,9 @@ Next ==
        [] Part = "mathx" -> /\ c' \in [kind : {"mathx"}, cls : {c.cls},
                                        m : MathXSpace(c.v, c.u)]
                             /\ out' = OutOf(c'.cls, MathXCfg(c'))
-       [] Part = "answers" -> /\ c' \in [kind : {"answers"}, cls : {c.cls}, ans : AnswerValues]
-                              /\ out' = AnswersOut(c'.ans)
+       [] Part = "answers" -> /\ c.ctx \in ContextsOf(c.cls)
+                              /\ c' \in [kind : {"answers"}, cls : {c.cls}, ctx : {c.ctx}, ans : AnswerValues]
+                              /\ out' = AnswersOut(c'.cls, c'.ctx, c'.ans)
        [] Part = "listans" -> /\ c' \in [kind : {"listans"}, cls : {c.cls}, la : ListAnswerValues(c.cls)]
                               /\ out' = ListAnswersOut(c'.cls, c'.la)
        [] Part = "lgroup" -> /\ c' \in LGCases(c.ordered, c.subs)
@@ -178,7 +214,8 @@ LawTablesInherit == (TableSeed /\ c.cls \in GraderClasses) =>
   \A opt \in DOMAIN AbstractGraderOpts : \A k \in Kinds : Verdict(c.cls, opt, k) = Verdict("StringGrader", opt, k)
 LawNumericalRefines == (IsCase /\ c.kind \in {"single", "base"} /\ c.cls = "NumericalGrader" /\ out.expect = "accept") =>
   Expect("FormulaGrader", SingleCfg(c)) = "accept"
-LawMatrixExtends == (IsCase /\ c.kind \in {"single", "base"} /\ c.cls = "FormulaGrader" /\ out.expect = "accept" /\ c.opt # "allow_inf") =>
+LawMatrixExtends == (IsCase /\ c.kind \in {"single", "base"} /\ c.cls = "FormulaGrader" /\ out.expect = "accept" /\ c.opt # "allow_inf"
+                     /\ c.val \notin MatrixFnKinds) =>                 \* except overrides of the functions MatrixGrader adds
   Expect("MatrixGrader", SingleCfg(c)) = "accept"
 LawExpectDomain == IsCase => out.expect \in {"accept", "reject", "skip"}
 \* single deviations: the verdict of the deviating value decides, except where a cross-option rule speaks
@@ -205,10 +242,15 @@ LawCanonFixedPoint == (IsCase /\ c.kind = "answers" /\ out.expect = "accept") =>
   /\ CanonAnswers(AsAnswers(out.canon)) = out.canon
   /\ Len(out.canon) = Len(c.ans.items)
 LawBareIsOneTuple == (IsCase /\ c.kind = "answers" /\ ~c.ans.tup) =>
-  AnswersOut([tup |-> TRUE, items |-> c.ans.items]) = out
+  AnswersOut(c.cls, c.ctx, [tup |-> TRUE, items |-> c.ans.items]) = out
 LawItemwise == (IsCase /\ c.kind = "answers") =>
   /\ (out.expect = "accept") <=> \A i \in 1..Len(c.ans.items) : ItemVerdict(c.ans.items[i]) = "in"
   /\ (out.expect = "reject") <=> \E i \in 1..Len(c.ans.items) : ItemVerdict(c.ans.items[i]) = "out"
+\* the comparer of string answers: entry-wise exactly for a MatrixGrader given one of the two entry_partial options
+LawComparer == (IsCase /\ c.kind = "answers") =>
+  /\ (out.cmp.kind = "entry") <=> (c.cls = "MatrixGrader" /\ c.ctx \in {"epc_prop", "epc_num", "epc_zero", "epm", "epm_empty", "epc_epm"})
+  /\ (out.cmp.kind = "none") <=> c.cls = "StringGrader"
+  /\ out.expect = AnswersOut(c.cls, "none", c.ans).expect          \* in-domain context options never change the verdict
 LawOkFromGrade == (IsCase /\ c.kind = "answers" /\ out.expect = "accept") =>
   \A i \in 1..Len(out.canon) : LET a == out.canon[i] IN
      /\ a.grade \in {"g0", "ghalf", "g1"} /\ a.msg \in {"m_empty", "m_text"} /\ a.ok \in {"true", "false", "partial"}
@@ -216,13 +258,21 @@ LawOkFromGrade == (IsCase /\ c.kind = "answers" /\ out.expect = "accept") =>
 \* list answers: acceptance is alternative-wise; the canonical form has one entry per alternative and, inside it, one canonical
 \* answers tuple per list entry; wrapping a single alternative in a tuple changes nothing
 LawListAnswers == (IsCase /\ c.kind = "listans") =>
-  /\ (out.expect = "reject") <=> \E i \in 1..Len(c.la.alts) : AltExpect(c.cls, c.la.alts[i]) = "reject"
+  /\ (out.expect = "reject") <=> \/ \E i \in 1..Len(c.la.alts) : AltExpect(c.cls, c.la.alts[i]) = "reject"
+                                 \/ c.cls = "SingleListGrader" /\ c.la.lenerr /\ Cardinality(AllLens(c.la)) > 1
   /\ out.expect = "accept" =>
         /\ Len(out.canon) = Len(c.la.alts)
         /\ \A i \in 1..Len(out.canon) :
-              LET es == IF c.cls = "ListGrader" THEN out.canon[i] ELSE out.canon[i].expect[1] IN
-              /\ Len(es) = Len(c.la.alts[i].entries)
-              /\ \A j \in 1..Len(es) : AnswersExpect(AsAnswers(es[j])) = "accept" /\ CanonAnswers(AsAnswers(es[j])) = es[j]
+              LET ls == IF c.cls = "ListGrader" THEN <<out.canon[i]>> ELSE out.canon[i].expect IN
+              /\ Len(ls) = 1 + Len(c.la.alts[i].more)
+              /\ \A k \in 1..Len(ls) :
+                    /\ Len(ls[k]) = Len(AltLists(c.la.alts[i])[k])
+                    /\ \A j \in 1..Len(ls[k]) : AnswersExpect(AsAnswers(ls[k][j])) = "accept" /\ CanonAnswers(AsAnswers(ls[k][j])) = ls[k][j]
+  \* with length_error every accepted configuration has lists of one length only; length_error never rescues a refused one
+  /\ (out.expect = "accept" /\ c.la.lenerr) =>
+        Cardinality(AllLens(c.la)) = 1
+  /\ (out.expect = "reject" /\ ~c.la.lenerr) => ListAnswersExpect(c.cls, [c.la EXCEPT !.lenerr = TRUE]) = "reject"
+  /\ ListAnswersExpect(c.cls, [c.la EXCEPT !.delim = "comma"]) = out.expect
   /\ ListAnswersOut(c.cls, [c.la EXCEPT !.bare = FALSE]) = out
 \* lgroup: with a list of subgraders an unordered grader is never accepted; a non-contiguous grouping is never accepted;
 \* renaming nothing but the order of inputs inside the grouping (reversal) does not change the verdict
